@@ -276,3 +276,53 @@ for _f in ("_ensure_dict", "_deep_merge", "_ensure_subdict"):
 for _f in ("_ensure_dict", "_deep_merge"):
     R.fclause("C14", "purity/helpers-do-not-write-args:" + _f, "custom", V + _f, fn=does_not_write_params)
 R.fclause("C14", "purity/writes-only-into-fresh", "custom", IMPL, fn=writes_only_into_fresh)
+
+
+# ---------------------------------------------------------------- every allowed key is examined
+# "Every accepted configuration satisfies the documented ranges ... and the engine can execute turns under it": a key
+# that is in an ALLOWED_* set but that the normaliser never mentions is accepted with *any* value (the unknown-key
+# check passes, nothing type-checks it).  Necessary condition, one obligation per key: the key occurs as a string
+# constant inside the normaliser, or is exempt because the engine never reads it / reads it through a total conversion.
+_KEY_EXEMPT = {
+    ("ALLOWED_TOP", "flags"): "free-form feature flags: carried through, not read by the engine stages",
+    ("ALLOWED_TOP", "surface_method"): "not read by any stage (Config field only)",
+    ("ALLOWED_T2", "archive"): "reserved section, not read by any stage",
+    ("ALLOWED_T2", "owner_scope"): "read only through str(...).lower() and compared with 'agent' / 'world': any value is tolerated",
+}
+
+
+def allowed_keys_are_examined(cl, mod, cls, func):
+    mentioned = {n.value for n in ast.walk(func) if isinstance(n, ast.Constant) and isinstance(n.value, str)}
+    out = []
+    nsets = 0
+    for st in mod.tree.body:
+        tg = None
+        if isinstance(st, ast.Assign) and len(st.targets) == 1 and isinstance(st.targets[0], ast.Name):
+            tg, val = st.targets[0].id, st.value
+        elif isinstance(st, ast.AnnAssign) and isinstance(st.target, ast.Name) and st.value is not None:
+            tg, val = st.target.id, st.value
+        if not tg or not tg.startswith("ALLOWED"):
+            continue
+        try:
+            keys = ast.literal_eval(val)
+        except Exception:
+            out.append(result("%s/%s" % (cl["name"], tg), "error", "anchor lost: %s is not a literal set" % tg))
+            continue
+        nsets += 1
+        for k in sorted(keys):
+            if not isinstance(k, str):
+                continue
+            nm = "%s/%s:%s" % (cl["name"], tg, k)
+            if k in mentioned:
+                out.append(result(nm, "proved", where="mentioned in the normaliser"))
+            elif (tg, k) in _KEY_EXEMPT:
+                out.append(result(nm, "proved", where="exempt: " + _KEY_EXEMPT[(tg, k)]))
+            else:
+                out.append(result(nm, "failed", "key %r is allowed (%s) but the normaliser never looks at it: any value is accepted and "
+                                                "handed to the engine unchecked" % (k, tg)))
+    if nsets < 20:
+        out.append(result(cl["name"] + "/anchors", "error", "anchor lost: expected the ALLOWED_* key sets, found %d" % nsets))
+    return out
+
+
+R.fclause("C14", "runnable/allowed-key-is-examined", "custom", IMPL, fn=allowed_keys_are_examined)
